@@ -136,5 +136,44 @@ func C01NameScenarios(tier string) []*Scenario {
 			}
 		}
 	}
+	// cosmetic converter settings: name, struct:comment (one and several lines), output:raw (declarations that use the
+	// generated names), in the formats where they are allowed
+	for ci, cos := range [][]string{
+		{"name Renamed$ID"},
+		{"struct:comment first line", "struct:comment second line", "struct:comment   indented third line"},
+		{"output:raw const Raw$ID = 1", "output:raw var _ = Raw$ID"},
+		{"name Other$ID", "struct:comment Other$ID does things.", "output:raw var _ = &Other$ID{}", "output:raw func Helper$ID() int { return Raw2$ID }", "output:raw const Raw2$ID = 2"},
+	} {
+		for _, format := range []string{"struct", "function"} {
+			usesStruct := false
+			for _, l := range cos {
+				if strings.HasPrefix(l, "name ") || strings.HasPrefix(l, "struct:comment") || strings.Contains(l, "&Other") {
+					usesStruct = true
+				}
+			}
+			if usesStruct && format == "function" {
+				continue // name and struct:comment need the struct format
+			}
+			for _, fallible := range []bool{false, true} {
+				n++
+				id := fmt.Sprintf("%04d", n)
+				sc := buildC01Names(id, c01TypeNames[ci%len(c01TypeNames)], c01PkgNames[0], format, fallible, "plain", false)
+				sc.Desc["class"] = fmt.Sprintf("%v cosmetic=%d", sc.Desc["class"], ci)
+				implName := sc.ID + "Impl"
+				for _, l := range cos {
+					l = strings.ReplaceAll(l, "$ID", id)
+					sc.ConvLines = append(sc.ConvLines, l)
+					if strings.HasPrefix(l, "name ") {
+						implName = strings.TrimPrefix(l, "name ")
+					}
+				}
+				if format == "struct" && implName != sc.ID+"Impl" {
+					sc.FnExprOverride = fmt.Sprintf("(&generated.%s{}).Convert", implName)
+					sc.AssertOverride = fmt.Sprintf("var _ conv.%s = &generated.%s{}", sc.ID, implName)
+				}
+				out = append(out, sc)
+			}
+		}
+	}
 	return out
 }
